@@ -555,6 +555,99 @@ def run(run):
                     except Exception:
                         pass
 
+    # a send() of the underlying socket refused once with a transient error,
+    # and recv() given flags: if the wrapper's call *returns*, the bytes on
+    # the wire are the continuation of the cipher stream / the stream read
+    # afterwards still decrypts (an error raised to the caller is fine - the
+    # connection is then over)
+    if run.shard == 0:
+        import errno as _errno
+        import socket as _socket
+        for rep, eno in enumerate((_errno.ENOBUFS, _errno.EINTR,
+                                   _errno.EAGAIN, _errno.EWOULDBLOCK)):
+            secret = bytes(rng.getrandbits(8) for _ in range(16))
+
+            class FlakySocket(object):
+                def __init__(self):
+                    self.sent, self.calls, self.refuse_at = [], 0, 2
+
+                def send(self, data):
+                    self.calls += 1
+                    if self.calls == self.refuse_at:
+                        raise OSError(eno, 'injected transient error')
+                    self.sent.append(bytes(data))
+                    return len(data)
+            raw = FlakySocket()
+            c = encryption.create_AES_cipher(secret)
+            sock = encryption.EncryptedSocketWrapper(raw, c.encryptor(),
+                                                     c.decryptor())
+            ref_enc = cfb8.CFB8(secret, secret)
+            chunks = [bytes(rng.getrandbits(8) for _ in range(20))
+                      for _ in range(4)]
+            accepted = b''
+            outcome = []
+            for ch in chunks:
+                try:
+                    sock.send(ch)
+                    accepted += ch
+                    outcome.append('returned')
+                except OSError:
+                    outcome.append('raised')
+                    break
+            run.count('wrapper_sends_with_a_refused_call')
+            if b''.join(raw.sent) != ref_enc.encrypt(accepted):
+                run.violation('wrapper/refused-send-breaks-cipher-stream',
+                              'the underlying send() was refused once with a '
+                              'transient error; the wrapper\'s send() calls '
+                              'returned normally, but what reached the socket '
+                              'is not the encryption of what was accepted',
+                              {'errno': _errno.errorcode[eno],
+                               'outcome': outcome})
+        for rep in range(2):
+            secret = bytes(rng.getrandbits(8) for _ in range(16))
+            a, b = _socket.socketpair()
+            a.settimeout(3.0)
+            c = encryption.create_AES_cipher(secret)
+            dec = c.decryptor()
+            sock = encryption.EncryptedSocketWrapper(a, c.encryptor(), dec)
+            raw_file = a.makefile('rb', 0)
+            fobj = encryption.EncryptedFileObjectWrapper(raw_file, dec)
+            plain = bytes(rng.getrandbits(8) for _ in range(40))
+            b.sendall(cfb8.CFB8(secret, secret).encrypt(plain))
+            try:
+                first = sock.recv(10)
+                try:
+                    peek = sock.recv(7, _socket.MSG_PEEK)
+                    flags_taken = True
+                except TypeError:
+                    peek, flags_taken = None, False
+                rest = b''
+                while len(first) + len(rest) < len(plain):
+                    got = (sock.recv(50) if rep == 0 else fobj.read(
+                        len(plain) - len(first) - len(rest)))
+                    if not got:
+                        break
+                    rest += got
+            except Exception as e:
+                first, rest, flags_taken, peek = b'', repr(e).encode(), None, \
+                    None
+            finally:
+                for x in (raw_file, a, b):
+                    try:
+                        x.close()
+                    except Exception:
+                        pass
+            run.count('wrapper_recv_with_flags_probes')
+            run.seen('wrapper_recv_flags', 'accepted' if flags_taken
+                     else 'refused')
+            if first + rest != plain or (flags_taken and peek != plain[10:17]):
+                run.violation('wrapper/recv-flags-break-cipher-stream',
+                              'after recv(n, MSG_PEEK) on the encrypted socket'
+                              ' wrapper the incoming stream no longer decrypts'
+                              ' (or the peeked bytes are not plaintext)',
+                              {'flags_accepted': flags_taken,
+                               'via': 'recv' if rep == 0 else 'file read'})
+
     # secrets: length and freshness
     secrets = [encryption.generate_shared_secret() for _ in range(1000)]
     run.count('secrets_generated', len(secrets))
